@@ -16,7 +16,7 @@ func runC05(r *Run) {
 	r.Explain = "Static decision of structural necessary conditions of C05 (voting power): the value formula is amount*price / 10^(asset decimals + price decimals) with the operands wired from the per-asset price and decimals lookups (comma-ok map reads, so a legitimate zero is not mistaken for a missing key); per operator the three values are reset, then self/total are assigned from the recomputation and the active value and the AVS accumulator are raised only when self >= the AVS minimum; the asset filter is the AVS's own supported-asset list; the recompute is atomic (cache context); the epoch hook recomputes every AVS whose identifier ended from the epoch preceding its starting epoch onwards (>= start-1) and skips an AVS on error; opt-in creates, opt-out deletes the value entry and a not-opted-in operator reads as zero; role-typed address arguments are not swapped."
 	r.NotDec = []string{"monotonicity in amounts and prices", "price freshness", "the value 'at the end of each epoch' as a temporal fact"}
 	r.Assume = []string{"sdk Int.Mul / Dec.QuoInt semantics"}
-	r.rule("C05.R1", "formula shape and operand wiring of CalculateUSDValue and all its call sites; comma-ok map lookups", 8)
+	r.rule("C05.R1", "formula shape and operand wiring of CalculateUSDValue and all its call sites; comma-ok map lookups; every per-asset value added to the running sum", 11)
 	r.rule("C05.R2", "eligibility: reset first; self/total assigned; active value and AVS accumulator only under self >= minimum self-delegation", 5)
 	r.rule("C05.R3", "asset filter = GetAVSSupportedAssets of the same AVS; prices/decimals for the same list", 2)
 	r.rule("C05.R4", "atomic recompute: cache-context discipline in UpdateVotingPower; iterate-and-update plus AVS value inside it", 4)
@@ -224,6 +224,34 @@ func runC05(r *Run) {
 			}
 		}
 		r.check(okSelf, "C05.R1", "self-amount", cu.pos(cu.Decl), "self value is computed on the token equivalent of the self-share", "self amount is not TokensFromShares(OperatorShare, TotalShare, TotalAmount)")
+		// every per-asset value is added to the running figure of the same field (a sum over the assets)
+		nAcc := 0
+		ast.Inspect(cu.Decl.Body, func(nd ast.Node) bool {
+			as, isAs := nd.(*ast.AssignStmt)
+			if !isAs || len(as.Lhs) != 1 || len(as.Rhs) != 1 {
+				return true
+			}
+			sel, isSel := stripParens(as.Lhs[0]).(*ast.SelectorExpr)
+			if !isSel {
+				return true
+			}
+			// a field of the function's result record (types.OperatorStakingInfo)
+			tv := cu.Info.TypeOf(sel.X)
+			if tv == nil || !strings.HasSuffix(strings.TrimPrefix(tv.String(), "*"), "types.OperatorStakingInfo") {
+				return true
+			}
+			nAcc++
+			recv, nm, args, isM := methodCall(as.Rhs[0])
+			good := as.Tok == token.ASSIGN && isM && nm == "Add" && len(args) == 1 && exprString(recv) == exprString(sel)
+			if as.Tok == token.ADD_ASSIGN {
+				good = true
+			}
+			r.check(good, "C05.R1", "sum-over-assets|"+sel.Sel.Name, cu.pos(as), "the value of each asset is added to the running "+sel.Sel.Name+" (the figure is the sum over the supported assets)", exprString(as.Lhs[0])+" is assigned the value of one asset instead of "+exprString(as.Lhs[0])+".Add(<that value>): with two priced assets only the last one iterated counts")
+			return true
+		})
+		if nAcc < 3 {
+			r.bad("C05.R1", "sum-over-assets|count", cu.pos(cu.Decl), "three accumulated figures (slash base, total, self)", fmt.Sprintf("%d assignments to a field of the OperatorStakingInfo result", nAcc))
+		}
 	}
 	// ---- R2..R4
 	uv := w.View("x/operator/keeper", "Keeper.UpdateVotingPower")
